@@ -20,7 +20,7 @@ GRID = {
     "ANSS16.Scheme3": [{}, {"param_identifier_size": 8}],
     "DP17.Pi": [{}, {"param_L": 2}, {"param_L": 4}, {"param_actual_storage_level_ratio": 0.5}, {"param_actual_storage_level_ratio": 1.0}, {"param_lambda": 16}],
     "CGKO06.SSE1": [{}, {"param_s": 128, "param_dictionary_size": 64}],
-    "CGKO06.SSE2": [{}],
+    "CGKO06.SSE2": [{}, {"param_max_file_size": 2}, {"param_max_file_size": 16}],
 }
 LENS = [1, 1, 1, 2, 2, 3, 4, 5, 7, 8, 9, 15, 16, 17, 31, 32, 33, 40]
 
